@@ -14,6 +14,8 @@ import (
 	"io"
 	"math/rand"
 	"net"
+	"runtime"
+	"strings"
 	"sync"
 	"time"
 
@@ -107,10 +109,12 @@ func securePair(na, nb net.Conn) (a, b *conn.SecretConnection, err error) {
 				ca.Close()
 				cb.Close()
 			}
-		case <-time.After(30 * time.Second):
+		case <-time.After(60 * time.Second):
+			buf := make([]byte, 1<<20)
+			buf = buf[:runtime.Stack(buf, true)]
 			ca.Close()
 			cb.Close()
-			return nil, nil, fmt.Errorf("handshake timed out")
+			return nil, nil, errHandshakeTimeout{stacksOf(string(buf), "MakeSecretConnection")}
 		}
 	}
 	if xa.err != nil || xb.err != nil || xa.sc == nil || xb.sc == nil {
@@ -120,6 +124,38 @@ func securePair(na, nb net.Conn) (a, b *conn.SecretConnection, err error) {
 		return nil, nil, fmt.Errorf("honest handshake reports the wrong remote key")
 	}
 	return xa.sc, xb.sc, nil
+}
+
+// errHandshakeTimeout: no verdict (the README's rule: timeouts are infrastructure failures).
+type errHandshakeTimeout struct{ stacks string }
+
+func (e errHandshakeTimeout) Error() string {
+	return "honest handshake did not complete within 60 s; goroutines inside it:\n" + e.stacks
+}
+
+// stacksOf keeps the goroutine dumps that mention the given function.
+func stacksOf(dump, fn string) string {
+	var out []string
+	for _, g := range strings.Split(dump, "\n\n") {
+		if strings.Contains(g, fn) {
+			if len(g) > 1500 {
+				g = g[:1500] + "..."
+			}
+			out = append(out, g)
+		}
+		if len(out) >= 4 {
+			break
+		}
+	}
+	return strings.Join(out, "\n\n")
+}
+
+// honestFailure classifies an error of securePair.
+func honestFailure(err error) *mismatch {
+	if _, ok := err.(errHandshakeTimeout); ok {
+		return &mismatch{kind: "infra", desc: err.Error()}
+	}
+	return &mismatch{kind: "honest", key: "handshake/honest-rejected", desc: err.Error()}
 }
 
 type mismatch struct {
@@ -186,7 +222,7 @@ func stReplay(g *mbt.Graph, seq []int, wire, content string, dir int, seed int64
 	defer cb.Close()
 	sa, sb, err := securePair(ca, cb)
 	if err != nil {
-		return st, &mismatch{kind: "honest", key: "handshake/honest-rejected", desc: err.Error()}
+		return st, honestFailure(err)
 	}
 	w, r := sa, sb
 	wc, rc := ca, cb
